@@ -247,6 +247,17 @@ fn poll_watch(w: &mut tonic::Streaming<HealthCheckResponse>) -> Ret {
 struct HistCase {
     depth: usize,
     first: Op,
+    /// SERVING / NOT_SERVING updates go through set_serving::<S>() / set_not_serving::<S>()
+    typed: bool,
+}
+
+struct NamedEmpty;
+impl tonic::server::NamedService for NamedEmpty {
+    const NAME: &'static str = "";
+}
+struct NamedA;
+impl tonic::server::NamedService for NamedA {
+    const NAME: &'static str = "a";
 }
 
 fn menu(live: &[bool], total_watches: usize) -> Vec<Op> {
@@ -292,6 +303,12 @@ fn hist_body(c: &HistCase, ch: &Chooser) -> Outcome {
         let m = menu(&live, watches.len());
         let op = if d == 0 { c.first.clone() } else { m[ch.pick(m.len())].clone() };
         let ret = match &op {
+            Op::Set(s, v) if c.typed && *v > 0 => match (*s, *v) {
+                (0, 1) => spin_block_on(reporter.set_serving::<NamedEmpty>(), 1000).map(|_| Ret::Unit),
+                (0, _) => spin_block_on(reporter.set_not_serving::<NamedEmpty>(), 1000).map(|_| Ret::Unit),
+                (_, 1) => spin_block_on(reporter.set_serving::<NamedA>(), 1000).map(|_| Ret::Unit),
+                _ => spin_block_on(reporter.set_not_serving::<NamedA>(), 1000).map(|_| Ret::Unit),
+            },
             Op::Set(s, v) => {
                 spin_block_on(reporter.set_service_status(SERVICES[*s], st(*v)), 1000).map(|_| Ret::Unit)
             }
@@ -573,13 +590,14 @@ fn sched_cases(tier: Tier) -> Vec<SchedCase> {
 pub fn property(tier: Tier) -> Property {
     let depth = tier.q(5, 7);
     let first_menu = menu(&[], 0);
-    let hcases: Vec<HistCase> = first_menu.into_iter().map(|first| HistCase { depth, first }).collect();
+    let mut hcases: Vec<HistCase> = first_menu.iter().cloned().map(|first| HistCase { depth, first, typed: false }).collect();
+    hcases.extend(first_menu.into_iter().map(|first| HistCase { depth: depth - 1, first, typed: true }));
     let hist = Section::new(
         "histories",
         Config::default(),
-        "cases: every operation sequence of depth 5 (thorough 7) over {set(service in {'', a}, status in 3), clear(service), check(service or a never-set name), watch(service) (<= 2 watches), next(w) = one non-blocking poll of a live watch, drop(w)} (choices cost nothing; one case per first operation), driven through the generated HealthClient wired in-process to health_reporter()'s HealthServer with no runtime; RefHealth is stepped in lock-step on every operation: check == latest (NOT_FOUND when unset/cleared/never set); a watch's reports form an order-preserving subsequence of the statuses set for its registration from the subscription on, Pending only when nothing is unreported (or the latest status equals the one reported last) and the service is still registered, end only after a clear and after the unreported latest status; never a status that was not set; every watch is polled with its own counting waker and a watcher whose last poll was Pending must have been woken by the next update/clear of its registration (no lost wake-up). Non-trivial = the sequence polls a watch and contains an update or clear.",
+        "cases: every operation sequence of depth 5 (thorough 7) over {set(service in {'', a}, status in 3), clear(service), check(service or a never-set name), watch(service) (<= 2 watches), next(w) = one non-blocking poll of a live watch, drop(w)} (choices cost nothing; one case per first operation; and again one level shallower with every SERVING / NOT_SERVING update made through set_serving::<S>() / set_not_serving::<S>() for NamedService types named '' and 'a'), driven through the generated HealthClient wired in-process to health_reporter()'s HealthServer with no runtime; RefHealth is stepped in lock-step on every operation: check == latest (NOT_FOUND when unset/cleared/never set); a watch's reports form an order-preserving subsequence of the statuses set for its registration from the subscription on, Pending only when nothing is unreported (or the latest status equals the one reported last) and the service is still registered, end only after a clear and after the unreported latest status; never a status that was not set; every watch is polled with its own counting waker and a watcher whose last poll was Pending must have been woken by the next update/clear of its registration (no lost wake-up). Non-trivial = the sequence polls a watch and contains an update or clear.",
         hcases,
-        |c: &HistCase| format!("depth={} first={:?}", c.depth, c.first),
+        |c: &HistCase| format!("depth={} first={:?} typed_api={}", c.depth, c.first, c.typed),
         hist_body,
     )
     .mins(10_000, 100, 1000);
